@@ -25,6 +25,9 @@ fn toks(v: &Value, rng: &mut StdRng) -> Option<String> {
             "_" | "." | "-" => s.push_str(t),
             "vend" | "my" | "vendor" | "a" | "b" | "c" => { let n = rng.gen_range(1..8); s.push_str(&word(rng, n)) }
             "v32" => s.push_str(&word(rng, 32)),
+            "d4" => s.push_str(&format!("{}", rng.gen_range(1000..10000))),
+            "d2" => s.push_str(&format!("{}", rng.gen_range(10..100))),
+            "d1" => s.push_str(&format!("{}", rng.gen_range(0..10))),
             "9d" => { s.push_str(&format!("{}", rng.gen_range(0..10))); s.push_str(&word(rng, 3)) }
             other => s.push_str(other),
         }
